@@ -248,6 +248,7 @@ def main_check(mod, argv):
     replay_dir = os.path.join(ROOT, "evidence", "replay")
     os.makedirs(replay_dir, exist_ok=True)
     violations = []          # dicts with 'replay' payloads
+    coqchk_info = None
     notes = []
     proof_broken = []        # names of theorems / files that no longer check
     discharged, obligations = 0, 0
@@ -298,6 +299,21 @@ def main_check(mod, argv):
         bad = static_scan()
         if bad:
             proof_broken.append("forbidden constructs: " + "; ".join(bad[:10]))
+        coqchk_info = None
+        if tier == "thorough" and not proof_broken:
+            # independent re-check of the compiled props module and everything it depends on
+            modname = "TF." + mod.PROPS_FILE[:-2].replace("/", ".")
+            rc, out, dt = sh(["coqchk", "-silent", "-o", "-Q", ".", "TF", modname], cwd=COQ, timeout=2400)
+            checker_cmds.append("coqchk -silent -o -Q . TF " + modname)
+            m = re.search(r"\* Axioms:(.*?)\n\s*\n\s*\*", out, re.S)
+            axl = [a.strip() for a in (m.group(1).strip().splitlines() if m else []) if a.strip() and a.strip() != "<none>"]
+            coqchk_info = {"rc": rc, "axioms": axl, "wall_s": round(dt, 1)}
+            if rc != 0:
+                proof_broken.append("coqchk failed: " + "\n".join(out.strip().splitlines()[-8:]))
+            else:
+                badax = [a for a in axl if a.split(".")[-1] not in ALLOWED_AXIOMS]
+                if badax or "type-in-type: <none>" not in out.replace("relying on ", "") or "positivity is assumed: <none>" not in out:
+                    proof_broken.append("coqchk reports non-allowed context: axioms=%s" % axl)
         # 3. implementation harness + oracle
         exes = {}
         if getattr(mod, "HARNESS", None):
@@ -440,6 +456,7 @@ def main_check(mod, argv):
                                "mismatches": mismatches, "oracle": bool(model_out is not None)},
             "translator": {"untranslatable": untr, "drift_from_golden": drift},
             "proof_broken": proof_broken,
+            "coqchk": coqchk_info,
             "known_findings_hit": {k: v[1] for k, v in kf_hit.items()},
         },
         "assumptions": list(getattr(mod, "ASSUMPTIONS", [])),
